@@ -1,5 +1,6 @@
 import Monorail.Proofs.Graph
 import Monorail.Props.C10
+import Monorail.Proofs.Kahn
 /-!
 # C03 — target groups are a valid dependency layering of every acyclic graph (graph level)
 
@@ -191,5 +192,87 @@ theorem c03_index_succeeds {cfg : Config} (roots : List Nat)
       induction gs with
       | nil => simp
       | cons a t ih => simp))) this)
+
+end Monorail
+
+namespace Monorail
+/-! ## The concrete counter / queue loop of `get_groups` (refinement, `Proofs/Kahn.lean`) -/
+
+theorem sameLayers_flatten : ∀ {cs gs : List (List Nat)}, sameLayers cs gs → cs.flatten.Perm gs.flatten := by
+  intro cs
+  induction cs with
+  | nil => intro gs h; cases gs with | nil => simp | cons b bs => cases h
+  | cons a as ih =>
+    intro gs h
+    cases gs with
+    | nil => cases h
+    | cons b bs =>
+      simp only [sameLayers] at h
+      simp only [List.flatten_cons]
+      exact List.Perm.append h.1 (ih h.2)
+
+theorem sameLayers_before : ∀ {cs gs : List (List Nat)}, sameLayers cs gs → ∀ {x y : Nat}, Before gs x y → Before cs x y := by
+  intro cs
+  induction cs with
+  | nil =>
+    intro gs h x y hb
+    cases gs with
+    | nil => obtain ⟨pre, B, mid, A, post, heq, _, _⟩ := hb; simp at heq
+    | cons b bs => cases h
+  | cons a as ih =>
+    intro gs h x y hb
+    cases gs with
+    | nil => cases h
+    | cons b bs =>
+      simp only [sameLayers] at h
+      obtain ⟨pre, B, mid, A, post, heq, hx, hy⟩ := hb
+      cases pre with
+      | nil =>
+        simp only [List.nil_append, List.cons.injEq] at heq
+        obtain ⟨rfl, hbs⟩ := heq
+        -- x is in the first group; y's group is somewhere in the tail
+        have hyb : ∃ l ∈ bs, y ∈ l := ⟨A, by rw [hbs]; simp, hy⟩
+        -- find the corresponding group in `as`
+        have : ∀ {as bs : List (List Nat)}, sameLayers as bs → (∃ l ∈ bs, y ∈ l) → ∃ l ∈ as, y ∈ l := by
+          intro as
+          induction as with
+          | nil => intro bs hs hh; cases bs with | nil => obtain ⟨l, hl, _⟩ := hh; cases hl | cons _ _ => cases hs
+          | cons a' as' ih' =>
+            intro bs hs hh
+            cases bs with
+            | nil => cases hs
+            | cons b' bs' =>
+              simp only [sameLayers] at hs
+              obtain ⟨l, hl, hyl⟩ := hh
+              rcases List.mem_cons.mp hl with rfl | hl
+              · exact ⟨a', by simp, hs.1.mem_iff.mpr hyl⟩
+              · obtain ⟨l', hl', hyl'⟩ := ih' hs.2 ⟨l, hl, hyl⟩
+                exact ⟨l', List.mem_cons_of_mem _ hl', hyl'⟩
+        obtain ⟨l, hl, hyl⟩ := this h.2 hyb
+        obtain ⟨p1, p2, hsplit⟩ := List.append_of_mem hl
+        exact ⟨[], a, p1, l, p2, by simp [hsplit], h.1.mem_iff.mpr hx, hyl⟩
+      | cons p ps =>
+        simp only [List.cons_append, List.cons.injEq] at heq
+        obtain ⟨rfl, hbs⟩ := heq
+        obtain ⟨pre', B', mid', A', post', heq', hx', hy'⟩ := ih h.2 ⟨ps, B, mid, A, post, hbs, hx, hy⟩
+        exact ⟨a :: pre', B', mid', A', post', by simp [heq'], hx', hy'⟩
+
+/-- **C03 (the loop of the code).** The counter / queue loop succeeds on the dependency closure of
+the roots exactly when the abstract layering does; its groups are a permutation of the closure and
+every requested node is in a strictly earlier group (dependents first, as `get_groups` returns them)
+than everything it depends on. -/
+theorem c03_kahn {g : Graph} (hr : InRange g) (roots : List Nat) (cs : List (List Nat))
+    (h : kahn g (closure g roots) = .ok cs) :
+    cs.flatten.Perm (closure g roots) ∧
+    ∀ u ∈ closure g roots, ∀ v ∈ g.out u, Before cs u v := by
+  obtain ⟨gs, hgs, hsame⟩ := (kahn_groups g roots).2 cs h
+  refine ⟨(sameLayers_flatten hsame).trans (c03_partition hgs), ?_⟩
+  intro u hu v hv
+  apply sameLayers_before hsame
+  -- order in `groups` (dependents first) is the reverse of the labeled order
+  have hl : labeledGroups g roots = .ok gs.reverse := by simp [labeledGroups, hgs]
+  have := c03_order hr hl hu hv
+  have hrev := before_reverse this
+  simpa using hrev
 
 end Monorail
